@@ -461,3 +461,150 @@ Definition dm_case (vals : list float) (gz : list bool)
    | None, None => true
    | _, _ => false
    end) && list_same Nat.eqb (rev acc) want_acc.
+
+(* ---------------------------------------------------------------------------------------------- *)
+(* L_BFGS.get_descent_direction and VL_BFGS.get_descent_direction (+ _InformationStore.delta),      *)
+(* descent_minimizers.py:229-261 and 292-309, 432-462, as functions of the WINDOW of stored pairs  *)
+(* (s_0,y_0) ... (s_{m-1},y_{m-1}), oldest first, and the current gradient g.                       *)
+(* Vectors are index functions nat -> F of dimension [dim]; F is any type with ring operations and  *)
+(* an uninterpreted division (no laws here).  The ring buffers / cached Gram entries of the         *)
+(* implementation are NOT modelled: the window is "the last min(k, max_history_length) pairs".      *)
+(* ---------------------------------------------------------------------------------------------- *)
+Section BFGS.
+  Variable F : Type.
+  Variables (f0 f1 : F) (fadd fmul fsub fdiv : F -> F -> F) (fopp : F -> F).
+  Variable dim : nat.
+  Definition vec := nat -> F.
+
+  (* Python sum([...]) / np.vdot on small arrays: ((0 + t0) + t1) + ... *)
+  Fixpoint sum_upto (n : nat) (t : nat -> F) : F :=
+    match n with O => f0 | S n' => fadd (sum_upto n' t) (t n') end.
+
+  Definition dot (u v : vec) : F := sum_upto dim (fun i => fmul (u i) (v i)).   (* u.s_vdot(v) *)
+  Definition vadd (u v : vec) : vec := fun i => fadd (u i) (v i).
+  Definition vsub (u v : vec) : vec := fun i => fsub (u i) (v i).
+  Definition smul (a : F) (v : vec) : vec := fun i => fmul a (v i).           (* a*v *)
+  Definition vscale (v : vec) (a : F) : vec := fun i => fmul (v i) a.         (* v*a *)
+  Definition vneg (v : vec) : vec := fun i => fopp (v i).
+
+  Definition upd {X : Type} (d : nat -> X) (k : nat) (f : X -> X) : nat -> X :=
+    fun l => if Nat.eqb l k then f (d l) else d l.
+
+  Variable m : nat.                 (* nhist / history_length *)
+  Variables s y : nat -> vec.       (* window, index 0 = oldest *)
+  Variable g : vec.                 (* gradient / last_gradient *)
+
+  (* ---- L_BFGS ---- *)
+  (* for i in range(k-1, k-nhist-1, -1):   [window index j = c-1 counts down from m-1 to 0]
+         alpha[idx] = s[idx].s_vdot(p)/s[idx].s_vdot(y[idx]);  p = p - alpha[idx]*y[idx] *)
+  Fixpoint L_loop1 (c : nat) (p : vec) (al : nat -> F) : vec * (nat -> F) :=
+    match c with
+    | O => (p, al)
+    | S j => let a := fdiv (dot (s j) p) (dot (s j) (y j)) in
+             L_loop1 j (vsub p (smul a (y j))) (upd al j (fun _ => a))
+    end.
+  (* for i in range(k-nhist, k):   [window index j = m - r counts up from 0 to m-1]
+         beta = y[idx].s_vdot(p) / s[idx].s_vdot(y[idx]);  p = p + (alpha[idx]-beta)*s[idx] *)
+  Fixpoint L_loop2 (r : nat) (al : nat -> F) (p : vec) : vec :=
+    match r with
+    | O => p
+    | S r' => let j := m - r in
+              let beta := fdiv (dot (y j) p) (dot (s j) (y j)) in
+              L_loop2 r' al (vadd p (smul (fsub (al j) beta) (s j)))
+    end.
+  Definition lbfgs_direction : vec :=
+    (* p = -gradient;  if nhist > 0: ... *)
+    let p := vneg g in
+    match m with
+    | O => p
+    | S _ =>
+        let '(p, al) := L_loop1 m p (fun _ => f0) in
+        (* idx = (k-1) % maxhist; fact = s[idx].s_vdot(y[idx]) / y[idx].s_vdot(y[idx]); p = p*fact *)
+        let fact := fdiv (dot (s (m - 1)) (y (m - 1))) (dot (y (m - 1)) (y (m - 1))) in
+        L_loop2 m al (vscale p fact)
+    end.
+
+  (* ---- VL_BFGS ---- *)
+  (* _InformationStore.b : s-window, y-window, last_gradient *)
+  Definition bvec (i : nat) : vec :=
+    if Nat.ltb i m then s i else if Nat.ltb i (2 * m) then y (i - m) else g.
+  (* b_dot_b as assembled at lines 415-429 (orientation of the cached products kept):
+       result[i, j] = ss;  result[i, m+j] = result[m+j, i] = sy[i, j] = s_i.y_j;  result[m+i, m+j] = yy
+       result[2m, i] = result[i, 2m] = s_i.g;  result[2m, m+i] = result[m+i, 2m] = y_i.g
+       result[2m, 2m] = last_gradient.norm()      [sic: the norm, not its square]          *)
+  Variable gnorm : F.
+  Definition B (i j : nat) : F :=
+    if Nat.ltb i m then
+      if Nat.ltb j m then dot (s i) (s j)
+      else if Nat.ltb j (2 * m) then dot (s i) (y (j - m))
+      else dot (s i) g
+    else if Nat.ltb i (2 * m) then
+      if Nat.ltb j m then dot (s j) (y (i - m))
+      else if Nat.ltb j (2 * m) then dot (y (i - m)) (y (j - m))
+      else dot (y (i - m)) g
+    else
+      if Nat.ltb j m then dot (s j) g
+      else if Nat.ltb j (2 * m) then dot (y (j - m)) g
+      else gnorm.
+
+  (* for j in range(m-1, -1, -1):
+         delta_b_b = sum([delta[l] * b_dot_b[l, j] for l in range(2*m+1)])
+         alpha[j] = delta_b_b/b_dot_b[j, m+j];  delta[m+j] -= alpha[j] *)
+  Fixpoint V_loop1 (c : nat) (delta : nat -> F) (al : nat -> F) : (nat -> F) * (nat -> F) :=
+    match c with
+    | O => (delta, al)
+    | S j => let dbb := sum_upto (2 * m + 1) (fun l => fmul (delta l) (B l j)) in
+             let a := fdiv dbb (B j (m + j)) in
+             V_loop1 j (upd delta (m + j) (fun x => fsub x a)) (upd al j (fun _ => a))
+    end.
+  (* for j in range(m):
+         delta_b_b = sum([delta[l]*b_dot_b[m+j, l] for l in range(2*m+1)])
+         beta = delta_b_b/b_dot_b[j, m+j];  delta[j] += (alpha[j] - beta) *)
+  Fixpoint V_loop2 (r : nat) (al : nat -> F) (delta : nat -> F) : nat -> F :=
+    match r with
+    | O => delta
+    | S r' => let j := m - r in
+              let dbb := sum_upto (2 * m + 1) (fun l => fmul (delta l) (B (m + j) l)) in
+              let beta := fdiv dbb (B j (m + j)) in
+              V_loop2 r' al (upd delta j (fun x => fadd x (fsub (al j) beta)))
+    end.
+  Definition vl_delta : nat -> F :=
+    (* delta = np.zeros(2*m+1); delta[2*m] = -1 *)
+    let delta := fun l => if Nat.eqb l (2 * m) then fopp f1 else f0 in
+    let '(delta, al) := V_loop1 m delta (fun _ => f0) in
+    (* for i in range(2*m+1): delta[i] *= b_dot_b[m-1, 2*m-1]/b_dot_b[2*m-1, 2*m-1]
+       For m = 0 both indices are -1, i.e. the last (= only) entry [0,0] of the 1x1 matrix; the
+       truncated subtraction of nat yields exactly that index 0. *)
+    let fac := fdiv (B (m - 1) (2 * m - 1)) (B (2 * m - 1) (2 * m - 1)) in
+    let delta := fun l => fmul (delta l) fac in
+    V_loop2 m al delta.
+  (* descent_direction = delta[0] * b[0]; for i in range(1, len(delta)): dd = dd + delta[i]*b[i] *)
+  Fixpoint lincomb_from (delta : nat -> F) (n : nat) : vec :=
+    match n with
+    | O => smul (delta 0) (bvec 0)
+    | S n' => vadd (lincomb_from delta n') (smul (delta (S n')) (bvec (S n')))
+    end.
+  Definition vl_direction : vec := lincomb_from vl_delta (2 * m).
+End BFGS.
+
+(* IEEE replay of both directions for 1-pixel fields: history of positions / gradients since the
+   last reset (oldest first, the current point last), max_history_length.  The window is the last
+   min(k, max_history_length) difference pairs, k = number of earlier calls. *)
+Definition bfgs_case (xs gs : list float) (mh : nat) (wantL wantV : float) (want_delta : list float)
+  : bool :=
+  let k := length xs - 1 in
+  let m := Nat.min k mh in
+  let x := fun i => nth i xs PrimFloat.nan in
+  let gr := fun i => nth i gs PrimFloat.nan in
+  (* s[...] = x - self._lastx ; y[...] = gradient - self._lastgrad *)
+  let s := fun j (_ : nat) => PrimFloat.sub (x (k - m + j + 1)) (x (k - m + j)) in
+  let y := fun j (_ : nat) => PrimFloat.sub (gr (k - m + j + 1)) (gr (k - m + j)) in
+  let g := fun _ : nat => gr k in
+  let gnorm := PrimFloat.sqrt (PrimFloat.mul (gr k) (gr k)) in
+  let pL := lbfgs_direction 0%float PrimFloat.add PrimFloat.mul PrimFloat.sub PrimFloat.div
+                            PrimFloat.opp 1 m s y g 0 in
+  let pV := vl_direction 0%float 1%float PrimFloat.add PrimFloat.mul PrimFloat.sub PrimFloat.div
+                         PrimFloat.opp 1 m s y g gnorm 0 in
+  let dl := map (vl_delta 0%float 1%float PrimFloat.add PrimFloat.mul PrimFloat.sub PrimFloat.div
+                          PrimFloat.opp 1 m s y g gnorm) (seq 0 (2 * m + 1)) in
+  fsame pL wantL && fsame pV wantV && list_same fsame dl want_delta.
